@@ -17,7 +17,7 @@ META = {
 }
 
 SIZES = {"quick": dict(ncases=150, nhist=40, steps=25, chunk=170),
-         "thorough": dict(ncases=4000, nhist=1200, steps=30, chunk=1500)}
+         "thorough": dict(ncases=3000, nhist=600, steps=30, chunk=1500)}
 
 
 def text(cps):
@@ -97,6 +97,37 @@ def by_hist(path):
     return res
 
 
+def binding_selftest(binp, scd, cases):
+    """DESIGN 9: flipping one expected id set of a binding A case must be reported by the driver, and
+    removing one returned id from a recorded step must be rejected by Trace_FullText."""
+    good = [c for c in cases if any(q["exp"] for q in c["qs"])][:1]
+    if not good:
+        raise lib.Inconclusive("binding self-test: no case with a non-empty expectation")
+    c = json.loads(json.dumps(good[0]))
+    for q in c["qs"]:
+        if q["exp"]:
+            q["exp"] = q["exp"][1:]
+            break
+    p = os.path.join(scd, "selftest-case.ndjson")
+    lib.write_ndjson(p, [c])
+    if not lib.run_report([binp, "-mode", "cases", "-in", p])["mismatches"]:
+        raise lib.Inconclusive("binding self-test: a flipped expectation was not reported by the driver")
+    wp = os.path.join(scd, "selftest-script.ndjson")
+    lib.write_ndjson(wp, [{"hid": 1, "coll": "bin", "multi": False, "queries": ["abc"],
+                           "stmts": [{"op": "insert", "sql": "INSERT INTO %T (id, a, b) VALUES (1, 'abc', NULL)"}]}])
+    wt = os.path.join(scd, "selftest-trace.ndjson")
+    lib.run_report([binp, "-mode", "script", "-in", wp, "-out", wt])
+    by, _ = judge_trace(wt, 10)
+    if by:
+        raise lib.Inconclusive("binding self-test: a plain one-row history is rejected: %s" % by)
+    ev = lib.read_ndjson(wt)[0]
+    ev["qs"][0]["where"] = []
+    lib.write_ndjson(wt, [ev])
+    by, _ = judge_trace(wt, 10)
+    if not by:
+        raise lib.Inconclusive("binding self-test: a corrupted trace was accepted by Trace_FullText")
+
+
 def check(tier):
     t0 = time.time()
     sz = SIZES[tier]
@@ -136,6 +167,8 @@ def check(tier):
                     v.add(m["signature"], {"sql": m["input"]["sql"], "docs": docs(c["rows"]), "query": text(q["q"]),
                                            "query_words": [text(w) for w in q.get("words", [])], "expected_ids": m["expected"], "got": m["got"],
                                            "collation": c["coll"], "multi_column": c["multi"], "case": c, "seed": lib.seed()})
+            if tier == "thorough":
+                binding_selftest(binp, scd, cases)
             lib.log("[C51] binding A: %d cases, %d queries, %d disagreements, %.1fs" % (repa["cases"], repa["extra"]["queries"], len(repa["mismatches"]), time.time() - t0))
 
             # ---- witnesses of the findings (recorded histories), judged with the binding B trace below
